@@ -45,7 +45,7 @@ UNITS = [
     # C01 as a whole: parse/_translate.py (4 000 lines) and intermediate/_translate.py (5 000 lines) are covered only by
     # *assumed* contracts at the level of load_model (contracts/core.py); this sweep is the bounded evidence behind
     # that assumption: it found 18 crashes on the pinned tree (all repaired, see known_findings.json).
-    Native("line- and token-level mutants of valid meta-models never crash the front end", ["C01"],
+    Native("line- and token-level mutants of valid meta-models never crash the front end", ["C01", "C03"],
            "native.c01:mutation_sweep", kind="bounded",
            bound="every single-edit mutant (delete / duplicate / swap adjacent lines; replace each NAME, STRING, NUMBER, "
                  "OP token by 2-8 alternatives) of the base meta-model of native/c06.py and of the 120 recorded "
